@@ -408,9 +408,20 @@ def replace_rule(R3, mod, fn):
     user_map = params[1] if len(params) > 1 else None
     inner = dict((n.name, n) for n in ast.walk(fn) if isinstance(n, ast.FunctionDef) and n is not fn)
     fresh = set()
+    # loop counters: `for i, k in enumerate(..)` gives every key its own number
+    counters = set()
+    for n in ast.walk(fn):
+        if isinstance(n, ast.For) and isinstance(n.iter, ast.Call) and u(n.iter.func) == 'enumerate' and isinstance(n.target, ast.Tuple) and isinstance(n.target.elts[0], ast.Name):
+            counters.add(n.target.elts[0].id)
+    colliding = []
     for n in ast.walk(fn):
         if isinstance(n, ast.Assign) and len(n.targets) == 1 and isinstance(n.targets[0], ast.Name) and isinstance(n.value, ast.Call) and u(n.value.func) == 'ExprId':
-            fresh.add(n.targets[0].id)
+            name_arg = n.value.args[0] if n.value.args else None
+            names_in = set(x.id for x in ast.walk(name_arg) if isinstance(x, ast.Name)) if name_arg is not None else set()
+            if names_in & counters and not any(isinstance(x, ast.Call) and u(x.func) in ('hash', 'str', 'repr', 'id') for x in ast.walk(name_arg)):
+                fresh.add(n.targets[0].id)
+            else:
+                colliding.append(n)
     key_fresh, val_fresh, tainted = {}, {}, set()
     for n in ast.walk(fn):
         if not isinstance(n, ast.Assign):
@@ -462,6 +473,9 @@ def replace_rule(R3, mod, fn):
                                  'a value put in place can form another key (chained rewriting instead of a simultaneous substitution)' % (norm(v), dn or u(looked))))
         else:
             problems.append(('Expr.replace_expr:callback', 'unmodelled callback %s' % (u(cb) if cb is not None else '<none>')))
+    for n in colliding:
+        problems.append(('Expr.replace_expr:mark-name', 'the mark %s is not named after a per-key counter: two different keys can get the same mark (hashes of nodes are XORs of their children: '
+                         'a-b and b-a collide), and both are then replaced by one value' % norm(n)))
     if problems:
         for key, msg in problems:
             R3.violation('Expr.replace_expr', key, msg, where(mod, fn), witness="((a+x)*(b+x)).replace_expr({a: b, (b+x): c}) is (c*c), not ((b+x)*c)" if key.endswith('chained') else None)
